@@ -912,28 +912,33 @@ fn type_parameters_to_doc(
   tparams_opt: Option<&annotation::TypeParameters>,
 ) -> Document {
   if let Some(tparams) = tparams_opt {
-    let doc = angle_bracket_surrounded_doc(comma_sep_list(
+    let doc = create_opt_preceding_comment_doc(
       heap,
       comment_store,
-      &tparams.parameters,
-      NO_COMMENT_REFERENCE,
-      |tparam| {
-        create_opt_preceding_comment_doc(
-          heap,
-          comment_store,
-          tparam.name.associated_comments,
-          if let Some(b) = &tparam.bound {
-            Document::concat(vec![
-              text_pstr(heap, tparam.name.name),
-              Document::Text(": "),
-              id_annot_to_doc(heap, comment_store, b),
-            ])
-          } else {
-            text_pstr(heap, tparam.name.name)
-          },
-        )
-      },
-    ));
+      tparams.start_associated_comments,
+      angle_bracket_surrounded_doc(comma_sep_list(
+        heap,
+        comment_store,
+        &tparams.parameters,
+        tparams.ending_associated_comments,
+        |tparam| {
+          create_opt_preceding_comment_doc(
+            heap,
+            comment_store,
+            tparam.name.associated_comments,
+            if let Some(b) = &tparam.bound {
+              Document::concat(vec![
+                text_pstr(heap, tparam.name.name),
+                Document::Text(": "),
+                id_annot_to_doc(heap, comment_store, b),
+              ])
+            } else {
+              text_pstr(heap, tparam.name.name)
+            },
+          )
+        },
+      )),
+    );
     if extra_space { Document::Concat(Rc::new(doc), Rc::new(Document::Text(" "))) } else { doc }
   } else {
     Document::Nil
